@@ -212,9 +212,11 @@ func (m *Machine) runScheduler(main *Thread) {
 			// livelock: every thread that can run is in a wait loop (Gosched / Sleep) and has
 			// gone round at least twice since any other thread last made a step - nothing can
 			// change what they are waiting for
-			stuck := spinSince[cur] >= 3
+			// (counted per thread since any *other* thread last made a step; 50 rounds, so
+			// that a short bounded retry loop is not mistaken for one)
+			stuck := spinSince[cur] >= 50
 			for _, t := range enabled {
-				if !(t.state == thRunnable && t.waitDesc == "spin" && spinSince[t] >= 3) {
+				if !(t.state == thRunnable && t.waitDesc == "spin" && spinSince[t] >= 50) {
 					stuck = false
 				}
 			}
@@ -232,7 +234,9 @@ func (m *Machine) runScheduler(main *Thread) {
 			}
 		} else {
 			for t := range spinSince {
-				delete(spinSince, t)
+				if t != cur {
+					delete(spinSince, t)
+				}
 			}
 		}
 		var options []*Thread
